@@ -36,9 +36,16 @@ def cases(tier, seed):
 
 def make_function(rng, d):
     import sparseSpACE.Function as F
-    kind = rng.choice(["corner", "product", "c0", "gauss", "discont", "osc"])
+    kind = rng.choice(["corner", "product", "c0", "gauss", "discont", "osc", "vector", "vector"])
     c = [rng.uniform(0.5, 3) for _ in range(d)]
     m = [rng.uniform(0.2, 0.8) for _ in range(d)]
+    if kind == "vector":
+        # vector-valued integrand (two or three library functions side by side): error estimates go through the chosen norm
+        c2 = [rng.uniform(0.5, 3) for _ in range(d)]
+        m2 = [rng.uniform(0.2, 0.8) for _ in range(d)]
+        three = rng.random() < 0.4
+        return kind, (lambda: F.FunctionConcatenate([F.GenzGaussian(midpoint=m, coefficients=c), F.GenzC0(coeffs=c2, midpoint=m2)]
+                                                    + ([F.GenzCornerPeak(coeffs=c2)] if three else [])))
     if kind == "corner":
         return kind, (lambda: F.GenzCornerPeak(coeffs=c))
     if kind == "product":
@@ -52,14 +59,37 @@ def make_function(rng, d):
     return kind, (lambda: F.GenzOszillatory(coeffs=c, offset=0.3))
 
 
-def build(strategy, cfg, f):
+class DepthGuard(hooks.Observer):
+    """Only the uninterrupted run carries it: a history that refines one spot 40 times runs into floating-point resolution
+    (the library's own start < mid < end assertion) - that is exhaustion of the workload, not an interruption property, and
+    such a case is skipped.  The interrupted / continued twins repeat prefixes of the same deterministic history."""
+
+    def __init__(self):
+        super().__init__(10 ** 9, None, max_depth=40, max_points=None)
+
+    def deepest(self, c):
+        try:
+            if hasattr(c.refinement, "get_refinement_container_for_dim"):
+                return super().deepest(c)
+            import math
+            best = 0
+            for o in c.refinement.get_objects():
+                for k in range(c.dim):
+                    g = (float(c.b[k]) - float(c.a[k])) / (float(o.end[k]) - float(o.start[k]))
+                    best = max(best, int(math.log2(g)))
+            return best
+        except Exception:
+            return 0
+
+
+def build(strategy, cfg, f, guard=None):
     obs = None
     if strategy == "dimwise":
-        c = dimwise.build(cfg, f, None)
+        c = dimwise.build(cfg, f, guard)
         err = (hooks.RandErr(cfg["errseed"], "geomhash", cfg["d"], cfg["a"], cfg["b"]) if cfg["profile"] == "geomhash"
                else hooks.RandErr(cfg["errseed"], "real", cfg["d"], cfg["a"], cfg["b"]))
     else:
-        c = extsplit.build(cfg, f, None)
+        c = extsplit.build(cfg, f, guard)
         from sparseSpACE.ErrorCalculator import ErrorCalculatorExtendSplit
         err = (hooks.RandErr(cfg["errseed"], "geomhash", cfg["d"], cfg["a"], cfg["b"]) if cfg["profile"] == "geomhash"
                else ErrorCalculatorExtendSplit())
@@ -86,6 +116,8 @@ def tolerance_continuation(case, res, rng, cfg, fname, fac, M):
     where a single run with the tight tolerance ends (dimension-wise strategy, error measured against the analytic reference)."""
     f0 = fac()
     ref = f0.getAnalyticSolutionIntegral(np.array(cfg["a"], dtype=float), np.array(cfg["b"], dtype=float))
+    if ref is None:
+        return      # no analytic reference for this integrand (concatenated functions)
     cfg_t = dict(cfg, reference=ref)
     args = dict(lmin=cfg["lmin"], lmax=cfg["lmax"], do_plot=False, print_output=False)
     c0, e0 = build("dimwise", cfg_t, fac())
@@ -202,8 +234,14 @@ def run_case(case, res):
     res.sample = {"config": cfg, "function": fname, "M": M}
     args = dict(lmin=cfg["lmin"], lmax=cfg["lmax"], tol=-1.0, do_plot=False, print_output=False)
     # uninterrupted run
-    cu, eu = build(strategy, cfg, fac())
-    ru = quiet(cu.performSpatiallyAdaptiv, errorOperator=eu, max_evaluations=M, **args)
+    cu, eu = build(strategy, cfg, fac(), guard=DepthGuard())
+    try:
+        ru = quiet(cu.performSpatiallyAdaptiv, errorOperator=eu, max_evaluations=M, **args)
+    except hooks.StopHistory:
+        res.note("uninterrupted_run_reaches_floating_point_resolution:case_skipped")
+        res.hash = digest(["depth_guard", case["seed"]])
+        return
+    cu.vobs = None
     pts_u = [int(x) for x in ru[6]]
     su = state(strategy, cu)
     result_u = np.array(ru[3], dtype=float)
